@@ -96,7 +96,7 @@ PROPS = {
          'rule': 'deposit addresses: key type {ECDSA, Schnorr; valid, short, bad prefix, off-curve} x version {0,1} x network {4 configured} x EVM address / magic prefix lengths, through the builders AND Query/DepositAddress of a real keeper, then the script a wallet derives from the returned string is fed to the verifiers with the same and with another key / EVM address; verifiers on independently built genuine scripts with 8 mutations; withdrawal address strings of 12 kinds (p2pkh, p2sh, p2wpkh, p2wsh, p2tr, non-standard witness programs v0..16 x 8 lengths, wrong checksum flavour, p2pk hex, bad base58 lengths / versions, random bytes, leading zeros) from 5 source networks under 4 configured networks with 9 string mutations; distinct = distinct (kind, mutation, outcome)',
          'assumptions': ['SHA-256 / HASH160 / the taproot tweak are abstract functions with fixed output length in the theorems; "for no other" is concluded up to an exhibited collision', 'elliptic-curve facts (x-only key parses, tweaked output key, HASH160) are data supplied by the harness from the real libraries',
                          'observation outside the property: btcd decodes a witness-v1 address with a 20-byte program (non-standard) as P2WPKH; counted in the distribution, not a violation of the property as stated'],
-         'partial': 'encode/decode round trip of the string layer (bech32 / base58check) is validated by the differential run and the decode-oracle monitor; the Coq theorems are about the structured address (kind, program, network)'},
+         'partial': 'the bech32 / bech32m string layer is proved (C17_bech32_round_trip, checksum algebra included); the 8-to-5-bit regrouping and base58check round trips are validated byte-exactly by the differential run and the decode-oracle monitor, not by theorems'},
  'C18': {'runs': runs([{'family': 'locking', 'n': 160, 'shards': 16, 'param': 'proj=C18,blocks=14'}, {'family': 'bridge', 'n': 120, 'shards': 16, 'param': 'proj=C18,ops=45', 'tag': '1'}, {'family': 'export', 'bin': 'ah', 'n': 16, 'shards': 1, 'tag': '2'}],
                       [{'family': 'locking', 'n': 3000, 'shards': 64, 'param': 'proj=C18,blocks=24'}, {'family': 'bridge', 'n': 2500, 'shards': 64, 'param': 'proj=C18,ops=70', 'tag': '1'}, {'family': 'export', 'bin': 'ah', 'n': 300, 'shards': 2, 'tag': '2'}]),
          'monitor_props': ['C18'],
